@@ -100,7 +100,7 @@ def containment(report, db, S, M):
                     'exception with its exc_info; the exit callback runs '
                     'only after _run() returned')
     run_ = M.method(M.thread, 'run')
-    me = sy(run_.params[0])
+    me = sy(run_.all_params[0])
     paths = S.run(run_)
     units = {}
     for name, ci in (('_run', M.thread), ('_handle_exit', M.conn),
@@ -203,7 +203,7 @@ def containment(report, db, S, M):
 def handler_list_attr(S, M):
     """The attribute register_exception_handler mutates."""
     reg = M.conn_method('register_exception_handler')
-    me = sy(reg.params[0])
+    me = sy(reg.all_params[0])
     attrs = set()
     for p in S.run(reg):
         for e in p.calls():
@@ -267,8 +267,8 @@ def chain(report, db, S, M):
     R6 = report.rule('R14.6', 're-raise iff no final handler is configured '
                      'and nothing caught the exception')
     he = M.conn_method('_handle_exception')
-    me = sy(he.params[0])
-    p_exc, p_info = sy(he.params[1]), sy(he.params[2])
+    me = sy(he.all_params[0])
+    p_exc, p_info = sy(he.all_params[1]), sy(he.all_params[2])
     fh = at(me, 'handle_exception')
     reg, attrs = handler_list_attr(S, M)
     if len(attrs) != 1:
@@ -631,10 +631,10 @@ def registration(report, db, S, M):
                          % sorted(attrs))
         return
     attr = sorted(attrs)[0]
-    me = sy(reg.params[0])
+    me = sy(reg.all_params[0])
     lst = at(me, attr)
     a = reg.node.args
-    hparam = reg.params[1]
+    hparam = reg.all_params[1]
     tparam = a.vararg.arg if a.vararg else None
     seen = {}
     prob = []
@@ -666,6 +666,9 @@ def registration(report, db, S, M):
         else:
             pos, entry = repr(e), None
         seen[early] = pos
+        if entry is not None and entry[0] == 'nt' and len(entry) == 3:
+            # a namedtuple is the tuple of its fields, in order
+            entry = ('tuple', tuple(entry[2]))
         if entry is None or entry[0] != 'tuple' or len(entry[1]) != 2 or \
                 struct(entry[1][0]) != sy(hparam) or (
                     tparam and struct(entry[1][1]) != sy('*' + tparam)):
